@@ -319,6 +319,10 @@ func (s *SpokFile) findClosestMatch(task string) string {
 // typical usage will make start = $CWD and stop = $HOME.
 func Find(logger logger.Logger, start, stop string) (string, error) {
 	for {
+		if above(start, stop) {
+			// We're already above 'stop', nothing up here is ours to look at
+			return "", errors.New("No spokfile found")
+		}
 		logger.Debug("Looking in %s for spokfile", start)
 		entries, err := os.ReadDir(start)
 		if err != nil {
@@ -333,12 +337,23 @@ func Find(logger logger.Logger, start, stop string) (string, error) {
 					return "", fmt.Errorf("could not resolve '%s': %w", e.Name(), err)
 				}
 				return abs, nil
-			} else if start == stop {
-				return "", errors.New("No spokfile found")
 			}
 		}
-		start = filepath.Dir(start)
+
+		// Nothing in this directory, stop if this was 'stop' or the root of the
+		// file system (whose parent is itself), otherwise go up one level
+		parent := filepath.Dir(start)
+		if start == stop || parent == start {
+			return "", errors.New("No spokfile found")
+		}
+		start = parent
 	}
+}
+
+// above reports whether dir is a proper ancestor of target.
+func above(dir, target string) bool {
+	rel, err := filepath.Rel(dir, target)
+	return err == nil && rel != "." && rel != ".." && !strings.HasPrefix(rel, ".."+string(filepath.Separator))
 }
 
 // New converts a parsed spok AST into a concrete File object,
